@@ -4,6 +4,7 @@ import (
 	"fmt"
 	"math/rand"
 	"reflect"
+	"runtime"
 	"sort"
 	"strings"
 	"sync"
@@ -363,7 +364,88 @@ func sortedMembers(s map[string]bool) []string {
 	return l
 }
 
+// runLaunchStorm: the pattern of the real launch path on a bare NodePoolState. Several "reconcilers" reserve nodes against
+// the limit and launch every granted NodeClaim from a goroutine of its own (UpdateNodeClaim -> the claim is active, then
+// ReleaseNodeCount: the reservation has turned into a claim); a terminator keeps removing claims so that there is always
+// something to provision. At every instant active + deleting + pending must stay within the limit: every claim that
+// exists was covered by a reservation when it was created.
+func runLaunchStorm(r *mon.Report, rng *rand.Rand, iters int) {
+	nps := state.NewNodePoolState()
+	const pool = "storm"
+	limit := int64(3 + rng.Intn(4))
+	var seq int64
+	var mu sync.Mutex
+	live := []string{}
+	var bad atomic.Value
+	var stop atomic.Bool
+	claim := func(name string) *v1.NodeClaim {
+		return &v1.NodeClaim{ObjectMeta: metav1.ObjectMeta{Name: name, Labels: map[string]string{v1.NodePoolLabelKey: pool}}}
+	}
+	check := func(where string) {
+		a, d, p := nps.GetNodeCount(pool)
+		if int64(a+d+p) > limit && bad.Load() == nil {
+			bad.Store(fmt.Sprintf("%s: NodePool has %d NodeClaims (active=%d deleting=%d pending=%d), node limit is %d", where, a+d+p, a, d, p, limit))
+			stop.Store(true)
+		}
+	}
+	var wg sync.WaitGroup
+	nRec := 4 + rng.Intn(5)
+	var grants int64
+	for g := 0; g < nRec; g++ {
+		wg.Add(1)
+		want := int64(1 + rng.Intn(3))
+		go func() {
+			defer wg.Done()
+			for i := 0; i < iters && !stop.Load(); i++ {
+				n := nps.ReserveNodeCount(pool, limit, want)
+				var lw sync.WaitGroup
+				for k := int64(0); k < n; k++ {
+					lw.Add(1)
+					go func() {
+						defer lw.Done()
+						name := fmt.Sprintf("c%d", atomic.AddInt64(&seq, 1))
+						nps.UpdateNodeClaim(claim(name), false)
+						check("after a granted NodeClaim became active")
+						nps.ReleaseNodeCount(pool, 1)
+						mu.Lock()
+						live = append(live, name)
+						mu.Unlock()
+					}()
+				}
+				lw.Wait()
+				atomic.AddInt64(&grants, n)
+			}
+		}()
+	}
+	wg.Add(1)
+	go func() { // terminator
+		defer wg.Done()
+		for i := 0; i < iters*nRec && !stop.Load(); i++ {
+			mu.Lock()
+			var name string
+			if len(live) > 0 {
+				name, live = live[0], live[1:]
+			}
+			mu.Unlock()
+			if name == "" {
+				runtime.Gosched()
+				continue
+			}
+			nps.UpdateNodeClaim(claim(name), true)
+			nps.Cleanup(name)
+		}
+	}()
+	wg.Wait()
+	r.Count("micro_launch_storm_grants", int(atomic.LoadInt64(&grants)))
+	if v := bad.Load(); v != nil {
+		r.Violate("micro-node-limit-exceeded:concurrent-reserve-launch-release", fmt.Sprintf("bare NodePoolState, %d reconcilers reserving and launching concurrently: %s", nRec, v.(string)), map[string]any{"limit": limit, "reconcilers": nRec}, nil)
+	}
+}
+
 func runMicro(r *mon.Report, tier string, idx, ord int, rng *rand.Rand) {
+	if ord%4 == 0 {
+		runLaunchStorm(r, rng, 1500)
+	}
 	nps := state.NewNodePoolState()
 	npools := 1 + rng.Intn(2)
 	truth := &microTruth{limit: map[string]int64{}, members: map[string]map[string]bool{}, outstanding: map[string]int64{}}
